@@ -1,4 +1,5 @@
 import NixModel.Lemmas.C20Frame
+import NixModel.Lemmas.C20Shape
 
 /-!
 # C20 — copies are complete, independent, and keep their internal links
@@ -72,6 +73,169 @@ theorem copySection_is_generic (src dst : Graph) (destOwner : Option Path) (owne
       | .ok (d1, root) =>
         if children then .ok d1 else readdProps src keepId (propsOf src obj) d1 root :=
   copySection_generic src dst destOwner owner cls obj children keepId name hd hk h0
+
+/-! ## the code as it is written now
+
+`harness/extract/copyshape.py` renders `H5Group.copy` and the eight copy entry points of `file.py`,
+`block.py`, `section.py` as values (`Generated/CopyShape.lean`) of the shape types of
+`Store/CopyShape.lean`; `h5CopyBy` / `callerBy` interpret them over the graph. The theorems of this
+section say that the interpretation of the *generated* values is the model the theorems below speak
+about — for all arguments. They fail to build when the source changes a guard of the id-regenerating
+visitor, drops the rename / the default name / the duplicate test (or tests another group), forwards
+another depth or id policy, or loses the re-adding loop of shallow section copies. -/
+
+open Nix.Store.CopyShape in
+/-- `H5Group.copy` of the source = `h5Copy` of the model (in particular: the visitor regenerates the
+id of **every** copied object that has one — groups and datasets (Properties) alike) -/
+theorem h5GroupCopy_source_is_model {src dst : Graph} (hdst : FileOk dst) (obj owner : Nat) (cls name : String)
+    (shallow keepId : Bool) (hid : src.entityId obj ≠ none)
+    (hleaf : nodeKind src obj ≠ .group → src.links obj = []) :
+    h5CopyBy Gen.h5GroupCopy src dst obj owner cls name shallow keepId =
+      h5Copy src dst obj owner cls name shallow keepId :=
+  h5CopyBy_gen hdst obj owner cls name shallow keepId hid hleaf
+
+open Nix.Store.CopyShape in
+/-- the eight entry points as generated from the source -/
+def entryPoints : List CallerShape :=
+  [Gen.fileCreateBlock, Gen.blockCreateDataArray, Gen.blockCreateDataFrame, Gen.blockCreateTag,
+   Gen.blockCreateMultiTag, Gen.sectionCreateProperty, Gen.fileCopySection, Gen.sectionCopySection]
+
+/-- every entry point defaults the name, tests the name in the container it copies into (before the
+copy), forwards its id policy, returns the copy by its name, and re-adds the properties exactly when
+it can make a shallow copy -/
+theorem entryPoints_shape_ok : ∀ sh ∈ entryPoints, ShapeOk sh = true := by decide
+
+open Nix.Store.CopyShape in
+/-- kinds and destination containers of the entry points -/
+theorem entryPoints_kinds :
+    entryPoints.map (fun sh => (sh.srcKind, sh.cls, sh.depth)) =
+      [("block", "data", .deep), ("data_array", "data_arrays", .deep), ("data_frame", "data_frames", .deep),
+       ("tag", "tags", .deep), ("multi_tag", "multi_tags", .deep), ("property", "properties", .deep),
+       ("section", "metadata", .notChildren), ("section", "sections", .notChildren)] := by decide
+
+open Nix.Store.CopyShape in
+/-- **every entry point of the source is the generic routine** (so `copy_complete`, `internal_links`,
+`ids_kept`, `ids_fresh`, `name_used`, `dup_refused`, `source_untouched` and the independence theorems
+below hold for it — including `create_data_frame(copy_from=…)`, which has no hand-written model
+function): a source of another kind is refused; else `copyGeneric` into the entry point's container,
+deep unless `children=False`, and then the properties are re-added -/
+theorem entry_point_source_is_generic {src dst : Graph} (hdst : FileOk dst) (sh : CallerShape)
+    (hsh : sh ∈ entryPoints) (owner obj : Nat) (name : String) (children keepId : Bool) (ho : owner ∈ keys dst)
+    (hid : src.entityId obj ≠ none) (hleaf : nodeKind src obj ≠ .group → src.links obj = []) :
+    (kindOf src obj ≠ sh.srcKind →
+      callerBy Gen.h5GroupCopy sh src dst owner obj name children keepId = .error .typeError) ∧
+    (kindOf src obj = sh.srcKind →
+      callerBy Gen.h5GroupCopy sh src dst owner obj name children keepId =
+        match copyGeneric src dst owner sh.cls obj name (shallowOf sh children) keepId with
+        | .error e => .error e
+        | .ok (d1, root) =>
+          if sh.readdsProps && !children then
+            (readdProps src keepId (propsOf src obj) d1 root).map fun d => (d, root)
+          else .ok (d1, root)) := by
+  constructor
+  · intro hk
+    unfold callerBy
+    have : (kindOf src obj != sh.srcKind) = true := by simpa using hk
+    rw [if_pos this]
+  · intro hk
+    exact callerBy_generic hdst sh (entryPoints_shape_ok sh hsh) owner obj name children keepId ho hk hid hleaf
+
+open Nix.Store.CopyShape in
+/-- `File.create_block(copy_from=…)` of the source = `copyBlock` of the model -/
+theorem copyBlock_source {src dst : Graph} (hdst : FileOk dst) (b : Nat) (name : String) (children keepId : Bool)
+    (h0 : 0 ∈ keys dst) (hk : kindOf src b = "block") (hid : src.entityId b ≠ none)
+    (hleaf : nodeKind src b ≠ .group → src.links b = []) :
+    (callerBy Gen.h5GroupCopy Gen.fileCreateBlock src dst 0 b name children keepId).map (·.1) =
+      copyBlock src dst b name keepId := by
+  rw [copyBlock_generic src dst b name keepId hk h0,
+    (entry_point_source_is_generic hdst Gen.fileCreateBlock (by decide) 0 b name children keepId h0 hid hleaf).2 hk]
+  show (match copyGeneric src dst 0 "data" b name false keepId with
+    | .error e => .error e | .ok (d1, root) => .ok (d1, root) : Except Err (Graph × Nat)).map (·.1) = _
+  cases copyGeneric src dst 0 "data" b name false keepId <;> rfl
+
+open Nix.Store.CopyShape in
+/-- `Section.create_property(copy_from=…)` of the source = `copyProperty` of the model -/
+theorem copyProperty_source {src dst : Graph} (hdst : FileOk dst) (sec p : Nat) (name : String)
+    (children keepId : Bool) (h0 : sec ∈ keys dst) (hs : kindOf dst sec = "section")
+    (hk : kindOf src p = "property") (hid : src.entityId p ≠ none)
+    (hleaf : nodeKind src p ≠ .group → src.links p = []) :
+    (callerBy Gen.h5GroupCopy Gen.sectionCreateProperty src dst sec p name children keepId).map (·.1) =
+      copyProperty src dst sec p name keepId := by
+  rw [copyProperty_generic src dst sec p name keepId hs hk h0,
+    (entry_point_source_is_generic hdst Gen.sectionCreateProperty (by decide) sec p name children keepId h0 hid
+      hleaf).2 hk]
+  show (match copyGeneric src dst sec "properties" p name false keepId with
+    | .error e => .error e | .ok (d1, root) => .ok (d1, root) : Except Err (Graph × Nat)).map (·.1) = _
+  cases copyGeneric src dst sec "properties" p name false keepId <;> rfl
+
+open Nix.Store.CopyShape in
+/-- `Block.create_data_array / create_tag / create_multi_tag (copy_from=…)` of the source (through
+`Block._copy_objects`) = `copyIntoBlock` of the model -/
+theorem copyIntoBlock_source {src dst : Graph} (hdst : FileOk dst) (sh : CallerShape) (what : String)
+    (hsh : (sh, what) ∈ [(Gen.blockCreateDataArray, "data_array"), (Gen.blockCreateTag, "tag"),
+      (Gen.blockCreateMultiTag, "multi_tag")])
+    (bp : Path) (b : Loc) (obj : Nat) (name : String) (children keepId : Bool)
+    (hb : resolve dst rootLoc bp = some b) (hbk : kindOf dst b.key = "block") (h0 : b.key ∈ keys dst)
+    (hk : kindOf src obj = what) (hid : src.entityId obj ≠ none)
+    (hleaf : nodeKind src obj ≠ .group → src.links obj = []) :
+    (callerBy Gen.h5GroupCopy sh src dst b.key obj name children keepId).map (·.1) =
+      copyIntoBlock src dst bp what obj name keepId := by
+  have key : ∀ (sh : CallerShape) (cls : String), sh ∈ entryPoints → sh.srcKind = what → sh.cls = cls →
+      clsOf what = some cls → sh.readdsProps = false → shallowOf sh children = false →
+      (callerBy Gen.h5GroupCopy sh src dst b.key obj name children keepId).map (·.1) =
+        copyIntoBlock src dst bp what obj name keepId := by
+    intro sh cls hmem hkind hcls hclsOf hre hshal
+    rw [copyIntoBlock_generic src dst bp b what cls obj name keepId hb hbk hclsOf hk h0,
+      (entry_point_source_is_generic hdst sh hmem b.key obj name children keepId h0 hid hleaf).2 (hk.trans hkind.symm),
+      hcls, hre, hshal]
+    cases copyGeneric src dst b.key cls obj name false keepId <;> rfl
+  simp only [List.mem_cons, Prod.mk.injEq, List.not_mem_nil, or_false] at hsh
+  rcases hsh with ⟨rfl, rfl⟩ | ⟨rfl, rfl⟩ | ⟨rfl, rfl⟩
+  · exact key _ "data_arrays" (by decide) rfl rfl rfl rfl rfl
+  · exact key _ "tags" (by decide) rfl rfl rfl rfl rfl
+  · exact key _ "multi_tags" (by decide) rfl rfl rfl rfl rfl
+
+open Nix.Store.CopyShape in
+/-- `File.copy_section` / `Section.copy_section` of the source = `copySection` of the model -/
+theorem copySection_source {src dst : Graph} (hdst : FileOk dst) (destOwner : Option Path) (owner : Nat)
+    (cls : String) (obj : Nat) (name : String) (children keepId : Bool)
+    (hd : sectionDest dst destOwner = some (owner, cls)) (h0 : owner ∈ keys dst)
+    (hk : kindOf src obj = "section") (hid : src.entityId obj ≠ none)
+    (hleaf : nodeKind src obj ≠ .group → src.links obj = []) :
+    (callerBy Gen.h5GroupCopy (if destOwner.isNone then Gen.fileCopySection else Gen.sectionCopySection)
+        src dst owner obj name children keepId).map (·.1) =
+      copySection src dst destOwner obj children keepId name := by
+  rw [copySection_generic src dst destOwner owner cls obj children keepId name hd hk h0]
+  have key : ∀ sh : CallerShape, sh ∈ entryPoints → sh.srcKind = "section" → sh.cls = cls →
+      sh.readdsProps = true → shallowOf sh children = !children →
+      (callerBy Gen.h5GroupCopy sh src dst owner obj name children keepId).map (·.1) =
+        match copyGeneric src dst owner cls obj name (!children) keepId with
+        | .error e => .error e
+        | .ok (d1, root) => if children then .ok d1 else readdProps src keepId (propsOf src obj) d1 root := by
+    intro sh hmem hkind hcls hre hshal
+    rw [(entry_point_source_is_generic hdst sh hmem owner obj name children keepId h0 hid hleaf).2 (hk.trans hkind.symm),
+      hcls, hre, hshal]
+    cases copyGeneric src dst owner cls obj name (!children) keepId with
+    | error e => rfl
+    | ok r =>
+      obtain ⟨d1, root⟩ := r
+      cases children
+      · simp only [Bool.not_false, Bool.and_self, ↓reduceIte, Bool.false_eq_true]
+        cases readdProps src keepId (propsOf src obj) d1 root <;> rfl
+      · rfl
+  cases destOwner with
+  | none =>
+    simp only [sectionDest, Option.some.injEq, Prod.mk.injEq] at hd
+    exact key Gen.fileCopySection (by decide) rfl hd.2 rfl rfl
+  | some p =>
+    have : cls = "sections" := by
+      simp only [sectionDest] at hd
+      split at hd
+      · split at hd
+        · simp only [Option.some.injEq, Prod.mk.injEq] at hd; exact hd.2.symm
+        · cases hd
+      · cases hd
+    exact key Gen.sectionCopySection (by decide) rfl this.symm rfl rfl
 
 section
 variable {src dst : Graph} {owner obj : Nat} {cls name : String} {keepId : Bool} {g' : Graph} {root : Nat}
@@ -625,6 +789,40 @@ theorem independent_delete_counterexample : ¬ independent_delete_full := by
 /-- non-vacuity: the same copy with regenerated ids succeeds and survives the deletion -/
 example : (copyGeneric oneArrayFile oneArrayFile 2 "data_arrays" 4 "a2" false false).toOption.isSome = true := by
   decide
+
+/-! ### non-vacuity of the source-shape theorems; what a narrower visitor would do -/
+
+/-- a section `s` (2, `id:0`) with one Property `p` (4: a *dataset*, `id:1`) -/
+def sectionFile : Graph :=
+  { nodes := [(0, { links := [("metadata", 1)] }),
+              (1, { links := [("s", 2)] }),
+              (2, { attrs := [("entity_id", "id:0"), ("name", "s"), ("~kind", "section")], links := [("properties", 3)] }),
+              (3, { links := [("p", 4)] }),
+              (4, { kind := .dataset, attrs := [("entity_id", "id:1"), ("name", "p"), ("~kind", "property")] })],
+    nextKey := 5, nextId := 10 }
+
+open Nix.Store.CopyShape in
+/-- `File.copy_section(s, name="s2", keep_id=False)` as the source is written: section *and* Property
+get fresh ids -/
+example : ((callerBy Gen.h5GroupCopy Gen.fileCopySection sectionFile sectionFile 0 2 "s2" true false).toOption.map
+    fun r => (r.2, r.1.entityId 5, r.1.entityId 7, r.1.getAttr 5 "name")) =
+    some (5, some "id:10", some "id:11", some "s2") := by decide
+
+open Nix.Store.CopyShape in
+/-- the same call with a visitor that skips datasets (`if not isinstance(igrp, h5py.Group): return`):
+the copied Property keeps `id:1` — the shape types can express the change, `h5GroupCopy_source_is_model`
+would not build for it -/
+example : ((callerBy ⟨true, some ⟨true, true, true, [(.isGroup, true), (.hasEntityId, true)]⟩⟩
+    Gen.fileCopySection sectionFile sectionFile 0 2 "s2" true false).toOption.map
+    fun r => (r.1.entityId 5, r.1.entityId 7)) = some (some "id:10", some "id:1") := by decide
+
+open Nix.Store.CopyShape in
+/-- `create_data_frame(copy_from=…)`-shaped copy of the array node of `oneArrayFile` is refused for the
+wrong kind, and the data-array entry point copies it under the new name with a fresh id -/
+example : (callerBy Gen.h5GroupCopy Gen.blockCreateDataFrame oneArrayFile oneArrayFile 2 4 "a2" true false).toOption.isSome
+    = false ∧
+    ((callerBy Gen.h5GroupCopy Gen.blockCreateDataArray oneArrayFile oneArrayFile 2 4 "a2" true false).toOption.map
+      fun r => (r.1.links 3, r.1.entityId r.2)) = some ([("a", 4), ("a2", 5)], some "id:10") := by decide
 
 end
 
